@@ -269,6 +269,7 @@ func (vc *FuncVC) applyContract(s *State, cl *callee, ord int, site ssa.Instruct
 			t := vc.freshConst("r_"+lastSeg(cl.name), vc.ss.sortOf(rt))
 			t.GoT = rt
 			vc.typeFacts(s.pc, t, rt)
+
 			res = append(res, t)
 		}
 		return res
@@ -479,6 +480,20 @@ func (vc *FuncVC) applyContract(s *State, cl *callee, ord int, site ssa.Instruct
 			continue
 		}
 		vc.assume(s.pc, f)
+	}
+	// whatever a call returns was allocated at some point: a returned slice's backing array, a returned
+	// pointer or map is not a reference that a later allocation can produce
+	if vc.useQuantSlices {
+		al := vc.get(s, "alloc", "(Array Int Bool)")
+		for _, t := range res {
+			if t.GoT == nil {
+				continue
+			}
+			switch t.GoT.Underlying().(type) {
+			case *types.Slice:
+				vc.assume(s.pc, T("Bool", fmt.Sprintf("(or (= (s!arr %s) 0) (select %s (s!arr %s)))", t.S, al.S, t.S)))
+			}
+		}
 	}
 	vc.siteClauses(s, old, ss, siteKey, cl, res, pos)
 	return res
